@@ -8,6 +8,7 @@ import (
 	"runtime/debug"
 	"strings"
 	"sync"
+	"sync/atomic"
 	"time"
 
 	"github.com/aml-org/amf-custom-validator/pkg"
@@ -36,6 +37,8 @@ type protoCase struct {
 	// when set, Profile/Data are file paths
 	ProfileFile string `json:"profileFile,omitempty"`
 	DataFile    string `json:"dataFile,omitempty"`
+	// Repeat > 1: the same call is made again (without a channel) -- same texts, same process, back to back
+	Repeat int `json:"repeat,omitempty"`
 }
 
 type callObs struct {
@@ -69,7 +72,7 @@ type protoObs struct {
 	Stack      string    `json:"stack,omitempty"`
 }
 
-const watchdog = 30 * time.Second
+const watchdog = 20 * time.Second
 
 type chanRec struct {
 	ch     chan events.Event
@@ -164,15 +167,24 @@ func (c *chanRec) probeClosed() (closed bool) {
 }
 
 type outcome struct {
-	kind   string
-	report string
-	err    string
-	pmsg   string
-	stack  string
-	h      *rego.PreparedEvalQuery
+	chanClosed bool   // the caller's channel was found closed after this call
+	release    func() // closes the caller's channel if it is still open
+	kind       string
+	report     string
+	err        string
+	pmsg       string
+	stack      string
+	h          *rego.PreparedEvalQuery
 }
 
+// poisoned is set once a call has hit the watchdog: the process then holds a blocked goroutine (and possibly a lock),
+// so later observations would only repeat the same hang; the remaining cases of this process are skipped.
+var poisoned int32
+
 func guarded(f func() (string, *rego.PreparedEvalQuery, error)) outcome {
+	if atomic.LoadInt32(&poisoned) != 0 {
+		return outcome{kind: "timeout"}
+	}
 	resc := make(chan outcome, 1)
 	go func() {
 		defer func() {
@@ -194,6 +206,7 @@ func guarded(f func() (string, *rego.PreparedEvalQuery, error)) outcome {
 	case o := <-resc:
 		return o
 	case <-time.After(watchdog):
+		atomic.StoreInt32(&poisoned, 1)
 		return outcome{kind: "timeout"}
 	}
 }
@@ -276,6 +289,10 @@ func runMilestones(es []events.Event) []msObs {
 
 func runProto(c protoCase) protoObs {
 	obs := protoObs{ID: c.ID, Entry: c.Entry, Chan: c.Chan, PClass: c.PClass, DClass: c.DClass, Calls: []callObs{}, Milestones: []msObs{}}
+	if atomic.LoadInt32(&poisoned) != 0 {
+		obs.Skipped = "process poisoned by an earlier timeout"
+		return obs
+	}
 	var rec *chanRec
 	var chp *chan events.Event
 	if c.Chan != "none" {
@@ -283,7 +300,6 @@ func runProto(c protoCase) protoObs {
 		chp = &rec.ch
 	}
 	var all []events.Event
-	repCfg := config.DefaultReportConfiguration()
 	doCall := func(entry string, last bool, f func() (string, *rego.PreparedEvalQuery, error)) outcome {
 		o := guarded(f)
 		co := callObs{Entry: entry, Kind: o.kind, Err: o.err, Panic: o.pmsg, HasChan: rec != nil, Events: []int{}, TimesOK: true}
@@ -315,8 +331,29 @@ func runProto(c protoCase) protoObs {
 			all = append(all, es...)
 		}
 		obs.Calls = append(obs.Calls, co)
+		if rec != nil {
+			o.chanClosed = rec.closed
+			if !rec.closed && o.kind != "timeout" {
+				o.release = func() { rec.probeClosed() }
+			}
+		}
 		return o
 	}
+	reps := c.Repeat
+	if reps < 1 || c.Chan != "none" {
+		reps = 1
+	}
+	for rep := 0; rep < reps; rep++ {
+		runProtoOnce(c, &obs, doCall, chp)
+	}
+	if rec != nil && len(all) > 0 {
+		obs.Milestones = runMilestones(all)
+	}
+	return obs
+}
+
+func runProtoOnce(c protoCase, obsp *protoObs, doCall func(string, bool, func() (string, *rego.PreparedEvalQuery, error)) outcome, chp *chan events.Event) {
+	repCfg := config.DefaultReportConfiguration()
 	switch c.Entry {
 	case "validate":
 		doCall("validate", true, func() (string, *rego.PreparedEvalQuery, error) {
@@ -342,7 +379,7 @@ func runProto(c protoCase) protoObs {
 			return "", h, err
 		})
 		if pre.kind != "handle" {
-			obs.Skipped = "precompile:" + pre.kind
+			obsp.Skipped = "precompile:" + pre.kind
 			break
 		}
 		doCall("validateCompiled", true, func() (string, *rego.PreparedEvalQuery, error) {
@@ -361,21 +398,17 @@ func runProto(c protoCase) protoObs {
 			}
 			return "", h, nil
 		})
-		if o.kind == "handle" && !(rec != nil && rec.closed) {
+		if o.kind == "handle" && !o.chanClosed {
 			doCall("validateCompiled", true, func() (string, *rego.PreparedEvalQuery, error) {
 				r, err := pkg.ValidateCompiled(o.h, c.Data, false, chp)
 				return r, nil, err
 			})
-		} else if rec != nil && !rec.closed && o.kind != "timeout" {
-			rec.probeClosed()
+		} else if o.release != nil {
+			o.release()
 		}
 	default:
-		obs.Skipped = "unknown entry " + c.Entry
+		obsp.Skipped = "unknown entry " + c.Entry
 	}
-	if rec != nil && len(all) > 0 {
-		obs.Milestones = runMilestones(all)
-	}
-	return obs
 }
 
 func init() {
